@@ -23,6 +23,10 @@ def run(pid, tier):
     else:
         nr, small = (150, 2) if quick else (4000, 4)
         run_impl('drv_surface.py', ['c17', tin, nr, common.seed(), small], timeout=6000)
+        # the same table once more in a fresh interpreter that touches the layouts in the opposite order
+        tin2 = tin.replace('.json', '_rev.json')
+        run_impl('drv_surface.py', ['c17', tin2, max(20, nr // 5), common.seed(), small], timeout=6000, extra_env={'VERIF_LAYOUT_ORDER': 'reversed'})
+        json.dump(json.load(open(tin)) + json.load(open(tin2)), open(tin, 'w'))
         cover = 0
     common.split_error_rows(v, pid, tin)
     rows = json.load(open(tin))
